@@ -62,7 +62,7 @@ Clauses(obs, m, st) ==
               THEN {"unique_destinations"} ELSE {})
         \cup (IF obs.status = "run" /\ \E i \in 1..N :
                    \/ plan[i].dst # (IF ObsDirLike(plan[i]) THEN NormDirStr(plan[i].dst) ELSE NormFileStr(plan[i].dst))
-                   \/ ObsKeyPath(plan[i]) = <<>>
+                   \/ (ObsKeyPath(plan[i]) = <<>> /\ ~ObsDirLike(plan[i]))      \* (only a directory can be the root)
               THEN {"absolute_clean"} ELSE {})
         \cup (IF obs.status = "run" /\ \E i \in 1..N : \E a \in Ancestors(ObsKeyPath(plan[i])) :
                    ~\E j \in 1..(i - 1) : ObsKeyPath(plan[j]) = a /\ ObsDirLike(plan[j])
@@ -86,7 +86,7 @@ Clauses(obs, m, st) ==
   IN <<req, doc>>
 
 (* a spelling that denotes the root itself is not a destination; outside REQ *)
-RootCase == \E i \in 1..Len(todo) : Norm(todo[i].dst) = <<>>
+RootCase == \E i \in 1..Len(todo) : Norm(todo[i].dst) = <<>> /\ todo[i].type \notin {"dir", "tree"}
 
 Cap == 300   \* bound the collectors: they are part of every state
 Record(cl) ==
